@@ -19,7 +19,7 @@ vars == <<shard, phase>>
 
 Hops == IF Thorough THEN {0, 1, 7, 30} ELSE {0, 7}
 Msss == IF Thorough THEN {536, 1220, 1460, 8960} ELSE {1460}
-Scs  == IF Thorough THEN {0, 7, 14} ELSE {7}
+Scs  == IF Thorough THEN {0, 1, 7, 13, 14} ELSE {7, 14}
 ChoiceGrid == {[ver |-> v, hop |-> h, m |-> m, sc |-> s, ecnip |-> e, pl |-> p] :
               v \in {4, 6}, h \in Hops, m \in Msss, s \in Scs, e \in BOOLEAN, p \in BOOLEAN}
 \* choices that make a difference for this signature (avoid generating the same packet twice)
